@@ -313,6 +313,14 @@ def step (ws : List String) : String :=
     let (xs, _) := takeList r2
     let cs := (List.range a.length).map (kC a mlim)
     s!"{toHex (kNorm a mlim)} | {fl cs} | {" ".intercalate (xs.map fun x => optHex (kEval a mlim x))}"
+  | "kintegral" :: xmin :: xmax :: rest =>
+    let (a, r1) := takeList rest
+    let (mlim, _) := takeList r1
+    (match kIntegral a mlim (parseHex xmin) (parseHex xmax) with
+     | .ok (i0, i1) => s!"ok {toHex i0} {toHex i1}"
+     | .error .below => "err below"
+     | .error .above => "err above"
+     | .error .index => "err index")
   | ["mrem", d, mb, mt] => toHex (Mrem (parseHex d) (parseHex mb) (parseHex mt))
   | ["sigmoid", slope, scale, m] => toHex (sigmoidRet (parseHex slope) (parseHex scale) (parseHex m))
   | ["erf", x] => toHex (Scalar.erf (parseHex x))
